@@ -96,8 +96,17 @@ class CRunner:
                 r = subprocess.run([self.driver, ops], stdout=fh, stderr=subprocess.PIPE, timeout=3000)
             res["model_rc"] = r.returncode
             res["model_err"] = r.stderr.decode("utf-8", "replace")[-500:]
+        env = dict(os.environ)
+        try:
+            idx = int(tag.rsplit("-", 1)[1])
+        except ValueError:
+            idx = -1
+        if self.tier == "quick" and 0 <= idx < 5:
+            # quick tier: the corpus shard and the first generated shards also run under AddressSanitizer
+            # (node arrays come from posix_memalign, which neither the model nor PYTHONMALLOC=debug can see)
+            env["C_HARNESS_ASAN"] = "1"
         r = subprocess.run([self.harness, ops, os.path.join(d, "impl"), os.path.join(d, "viol")],
-                           stdout=subprocess.PIPE, stderr=subprocess.STDOUT, timeout=6000)
+                           stdout=subprocess.PIPE, stderr=subprocess.STDOUT, timeout=6000, env=env)
         res["impl_rc"] = r.returncode
         res["impl_out"] = r.stdout.decode("utf-8", "replace")[-2000:]
         # The traces are large (state dump + refcounts after every call), so every shard is
